@@ -1,7 +1,9 @@
 """Runs in a FRESH interpreter (one per PYTHONHASHSEED): table-level reports of
 codebasin.report for many tables, each under several dict insertion orders.
 
-stdin : JSON  [[order, ...], ...]   order = [[names, count], ...] (contributions, in insertion order)
+stdin : JSON  [{"orders": [order, ...], "porders": [[index, ...], ...]}, ...]
+              order = [[names, count], ...] (contributions, in insertion order)
+              porder = indices into the sorted platform list: the order in which they are handed to average_coverage
 stdout: JSON  [[result, ...], ...]  one result per order
 """
 import io
@@ -31,7 +33,7 @@ def fx(x):
     return [x.hex(), format(x, ".2f")]
 
 
-def one(order):
+def one(order, porders):
     sm = defaultdict(int)
     for names, count in order:
         sm[frozenset(names)] += count
@@ -49,12 +51,14 @@ def one(order):
     out["div"] = fx(guard(lambda: report.divergence(sm)))
     out["cov"] = fx(guard(lambda: report.coverage(sm)))
     out["avg"] = fx(guard(lambda: report.average_coverage(sm)))
+    # the platforms handed over explicitly, as a list in a given order (what cbi-tree does with root.platforms)
+    out["avgp"] = [fx(guard(lambda: report.average_coverage(sm, [plats[i] for i in ix]))) for ix in porders]
     return out
 
 
 def main():
     tables = json.load(sys.stdin)
-    json.dump([[one(o) for o in orders] for orders in tables], sys.stdout)
+    json.dump([[one(o, t["porders"]) for o in t["orders"]] for t in tables], sys.stdout)
 
 
 if __name__ == "__main__":
